@@ -1405,8 +1405,15 @@ def _roots_of(expr, fnode, depth=0):
     out = set()
     if expr is None:
         return out
+    # the sizes handed to a tensor factory are not values the tensor stores (torch.zeros(shape) holds zeros)
+    size_args = set()
     for n in ast.walk(expr):
-        if isinstance(n, ast.Name) and n.id not in ("torch", "np", "nn", "F", "math", "self", "init", "check", "torchutils"):
+        if isinstance(n, ast.Call) and _last(n) in ("zeros", "ones", "empty", "randn", "rand", "eye", "new_zeros", "new_ones", "new_empty") and not any(k.arg in ("out",) for k in n.keywords):
+            for a in n.args:
+                for x in ast.walk(a):
+                    size_args.add(id(x))
+    for n in ast.walk(expr):
+        if isinstance(n, ast.Name) and id(n) not in size_args and n.id not in ("torch", "np", "nn", "F", "math", "self", "init", "check", "torchutils"):
             out.add(n.id)
     if depth < 4:
         more = set()
@@ -1727,6 +1734,111 @@ def ld_at_rule(ctx):
     return r
 
 
+def _renamed(results, mapping):
+    out = []
+    for r in results if isinstance(results, list) else [results]:
+        if r.rule in mapping:
+            new = mapping[r.rule]
+            for f in r.findings:
+                f.rule = new
+            r.rule = new
+            out.append(r)
+    return out
+
+
+def ld_scale_rule(ctx):
+    """LD-SCALE.  If the outputs of an element-wise direction are  c(theta) * g(inputs) (+ terms without the
+    inputs)  with c a plain parameter of the module raised to the power k, then d outputs / d inputs carries the
+    factor c^k and the log-abs-det must contain k * log c (summed over the event).  Decided on the monomial
+    normal form of the returned outputs: for every parameter atom theta^k (k = +-1) of the one input-dependent
+    term, the signed leaves of the returned log-det contain log(theta) with the sign of k -- unless the log-det
+    is computed by a call this rule does not look into.  (Logit(T): outputs (1/T) logit(x), log-det needs
+    -log T.)"""
+    from ..prodnf import NotMonomial, additive_terms
+
+    p = ctx.p
+    res = RuleResult("LD-SCALE", "a parameter that scales the outputs of an element-wise direction (outputs = theta^k * g(inputs) + ..) appears as k * log(theta) in the returned log-abs-det")
+    n = 0
+    for cls in transform_classes(p):
+        for mname in ("forward", "inverse"):
+            fi = cls.methods.get(mname)
+            if fi is None or _only_raises(fi) or not fi.params():
+                continue
+            x = fi.params()[0][0]
+            try:
+                paths = [q for q in paths_of(fi.node, {"self.training": False}) if q.kind == "return"]
+            except AnalysisIncomplete:
+                continue
+            for path in paths:
+                r = path.ret
+                if not (isinstance(r, ast.Tuple) and len(r.elts) == 2):
+                    continue
+                out_e, ld_e = r.elts
+                if size_upto(out_e, 1500) > 1500 or size_upto(ld_e, 3000) > 3000:
+                    continue
+                try:
+                    terms = additive_terms(out_e)
+                except NotMonomial:
+                    continue
+                except Exception:
+                    continue
+
+                def mentions_x(m):
+                    return any(_mentions_name(a, x) for a in m)
+
+                dep = [(c, m) for c, m in terms if mentions_x(m)]
+                if len(dep) != 1:
+                    continue
+                c0, m0 = dep[0]
+                params = [(a, k) for a, k in m0.items() if a[0] == "leaf" and a[1].startswith("self.") and not _mentions_name(a, x) and abs(k) == 1 and "(" not in a[1]]
+                if not params:
+                    continue
+                # a log-det computed by a method call is not looked into
+                if any(isinstance(c, ast.Call) and isinstance(c.func, ast.Attribute) and isinstance(c.func.value, ast.Name) and c.func.value.id == "self" for c in uwalk(ld_e)):
+                    continue
+                leaves = ld_terms(ld_e)
+                for (kind, text), k in params:
+                    n += 1
+                    found = [sg for sg, l in leaves if isinstance(l, ast.Call) and _last(l) == "log" and l.args and norm_text(l.args[0]) == text or (isinstance(l, ast.Call) and _last(l) == "log" and isinstance(l.func, ast.Attribute) and not l.args and norm_text(l.func.value) == text)]
+                    want = 1 if k > 0 else -1
+                    if found == [want]:
+                        res.ok("%s.%s: outputs scale with %s^%d, log-det carries %slog(%s)" % (cls.name, mname, text, k, "+" if want > 0 else "-", text))
+                    elif not found:
+                        res.fail(Finding("LD-SCALE", fi.module, fi.qualname, path.ret_node, "the outputs are `%s`^%d times a function of the inputs, so every element's derivative carries that factor, but the returned log-abs-det has no %slog(%s) term" % (text, k, "+" if want > 0 else "-", text), construct="scale factor %s in the log-det of %s.%s" % (text, cls.name, mname)))
+                    else:
+                        res.fail(Finding("LD-SCALE", fi.module, fi.qualname, path.ret_node, "the outputs are `%s`^%d times a function of the inputs; the log-abs-det must contain log(%s) once with sign %+d, found signs %s" % (text, k, text, want, found), construct="scale factor %s in the log-det of %s.%s" % (text, cls.name, mname)))
+    if n < 1:
+        raise AnalysisIncomplete("LD-SCALE: no direction with a parameter scale factor found (Sigmoid.inverse is one on the pinned tree)")
+    return res
+
+
+def _mentions_name(atom, name):
+    import re
+
+    def texts(a):
+        if isinstance(a, tuple):
+            for q in a:
+                yield from texts(q)
+        elif isinstance(a, str):
+            yield a
+
+    pat = re.compile(r"(?<![A-Za-z0-9_.])%s(?![A-Za-z0-9_])" % re.escape(name))
+    return any(pat.search(t) for t in texts(atom))
+
+
+def ld_lin_rule(ctx):
+    """LD-LIN = LIN-LOGDET (shared with C11): the log-abs-det a Linear transform returns -- directly, or out of
+    its cache, whichever accessor filled it -- is + sum log|diag| of its factors in forward and the negation
+    in inverse.  An accessor hook that returns the log-det of the inverse poisons the cache for forward."""
+    return _renamed(lin_word_rule(ctx), {"LIN-LOGDET": "LD-LIN"})
+
+
+def inv_lin_rule(ctx):
+    """INV-LIN = LIN-WORD (shared with C11): weight_inverse() is the inverse of weight() as matrix words, and
+    the two no-cache directions are X W^T + b and (X - b) W^-T -- so the cached inverse undoes the forward."""
+    return _renamed(lin_word_rule(ctx), {"LIN-WORD": "INV-LIN"})
+
+
 def inv_layout_rule(ctx):
     """INV-LAYOUT = BM-ROWS (shared with C12): in the image code paths every permute / reshape keeps the
     axes' memory order consistent and each direction hands its outputs back laid out as the inputs --
@@ -1899,7 +2011,7 @@ def ld_elem_rule(ctx):
 
 register(
     "C01",
-    [nodrop_rule, ld_shape_rule, ld_mult_rule, ld_elem_rule, ld_state_rule, ld_orth_rule, ld_at_rule],
+    [nodrop_rule, ld_shape_rule, ld_mult_rule, ld_elem_rule, ld_state_rule, ld_orth_rule, ld_at_rule, ld_lin_rule, ld_scale_rule],
     "LD-STATE: in every nn.Module class, a non-persistent buffer or plain tensor attribute whose constructor expression is "
     "computed from a constructor value that the same constructor stores as a parameter or persistent buffer (through local "
     "aliases and tensor wrappers) is a second copy of restorable state; if any method reads it and no method refreshes it, the "
@@ -2115,7 +2227,7 @@ def inv_at_rule(ctx):
 
 register(
     "C02",
-    [inv_sign_rule, inv_config_rule, inv_pos_rule, inv_state_rule, ld_state_rule, inv_round_rule, inv_layout_rule, inv_at_rule],
+    [inv_sign_rule, inv_config_rule, inv_pos_rule, inv_state_rule, ld_state_rule, inv_round_rule, inv_layout_rule, inv_at_rule, inv_lin_rule],
     "INV-ROUND: CouplingTransform.forward is partially evaluated on a symbolic input, its result fed to inverse, and the outcome "
     "simplified with the contracts of the parts only (gather/scatter over the two index buffers, hook_inverse(hook_forward(v, p), p) "
     "= v, U^-1(U(v)) = v): it must reduce to x and the log-dets must pair up -- which features condition, in which order the parts "
